@@ -20,6 +20,7 @@ notes/reports/C11.md.
 -/
 import Hts.Lemmas.Decoders
 import Hts.Lemmas.DecodersIndex
+import Hts.Lemmas.DecodersHeader
 namespace Hts.Props.C11
 open Hts.Model.Decoders
 open Hts.Model.Decoders.Outcome (ok err)
@@ -170,6 +171,34 @@ theorem readBAI_total (s : Bytes) : (readBAI s).isPanic = false := readBAI_total
 (repair fixes/C11-12), and the references are read by the same `internal.ReadIndex` -/
 theorem readTabix_total (s : Bytes) : (readTabix s).isPanic = false := readTabix_total' s
 
+/-! ### SAM header text parsers (indexing only; the meaning of a field is a parameter) -/
+
+/-- the field loop of `headerLine`, `referenceLine`, `readGroupLine`, `programLine` (repair fixes/C11-4):
+`f[2]`, `f[:2]`, `f[3:]` and `fields[1:]` never panic, whatever the per-field action does short of
+panicking itself -/
+theorem headerTagLine_total {σ : Type} (minFields : Nat) (hmin : 1 ≤ minFields)
+    (act : σ → Bytes → Bytes → Outcome σ) (hact : ∀ st tag val, (act st tag val).isPanic = false)
+    (l : Bytes) (st : σ) : (tagLine minFields act l st).isPanic = false :=
+  tagLine_total minFields hmin act hact l st
+
+/-- `commentLine`'s `fields[1]` and the line dispatch of `Header.UnmarshalText` (`l[len(l)-1]`, `l[0]`,
+`l[1:3]`) never panic -/
+theorem headerDispatch_total (l : Bytes) : (lineTag l).isPanic = false ∧ (commentLineM l).isPanic = false :=
+  ⟨lineTag_total l, commentLineM_total l⟩
+
+/-- the `M5` field of an `@SQ` line: `hex.Decode` into the 16-byte array cannot run past it
+(repair fixes/C11-6) -/
+theorem headerMD5_total (val : Bytes) : (md5Field val).isPanic = false := md5Field_total val
+
+/-- `bh.refs[dupID]` in `referenceLine` and `Header.AddReference`: every id in `seenRefs` indexes `refs`,
+and registering a reference keeps it so — for every line, by induction over the header text -/
+theorem headerRefs_invariant (t : RefTable) (hwf : t.wf) (name : Bytes) (same replaceable complete : Bool) :
+    (addRef t name same replaceable complete).isPanic = false ∧
+      ∀ t', addRef t name same replaceable complete = ok t' → t'.wf := by
+  rcases addRef_spec t hwf name same replaceable complete with h | ⟨t', h, hw⟩
+  · rw [h]; exact ⟨rfl, fun _ h' => by cases h'⟩
+  · rw [h]; exact ⟨rfl, fun _ h' => by cases h'; exact hw⟩
+
 /-! ### non-vacuity (tests) -/
 
 /-- a parser instance: decimal digits only -/
@@ -208,5 +237,11 @@ example : streamRead "x" itf8Width 5 [0xe0, 1, 2, 3] = ok true := by decide
 example : readBAI ([66, 65, 73, 1, 1, 0, 0, 0, 1, 0, 0, 0, 0x49, 0x12, 0, 0, 1, 0, 0, 0] ++ List.replicate 16 0 ++
     [1, 0, 0, 0] ++ List.replicate 8 0) = ok (some (1, 48)) := by decide
 example : readBAI [66, 65, 73, 1, 0xff, 0xff, 0xff, 0xff] = err := by decide
+
+example : (⟨0, []⟩ : RefTable).wf := by intro p hp; cases hp
+example : (addRef ⟨1, [([97], 0)]⟩ [97] false true true).isPanic = false := by decide
+-- "@HD\tV" : a field shorter than three bytes is an error of the field loop
+example : tagLine 2 (fun (st : Unit) _ _ => ok st) [64, 72, 68, 9, 86] () = err := by decide
+example : md5Field (List.replicate 34 48) = err := by decide
 
 end Hts.Props.C11
